@@ -18,6 +18,7 @@ WHY = [
     ("C12.decimal_16_digits", "printing 17 significant digits changes the saved form of almost every decimal constant (0.1 → 0.10000000000000001): a format decision for the maintainer"),
     ("C12.wrapped_integer_literal", "an integer literal ≥ 2^63 is accepted and wraps: rejecting it changes which programs load"),
     ("C12.print_items_fuse", "print items are saved blank-separated without their parentheses: a repair has to re-parenthesise items by a rule that does not exist yet in the unparser"),
+    ("C13.interactive_reader_keeps_cr", "a small repair exists (skip CR in ReadInput::read like the other readers; patch in notes/NOTES-C13R4.md) but it changes what interactive users on CRLF input see and only shows without libreadline: left to the maintainer"),
     ("C13.", "the scanner tokenises each reader chunk separately (yy_scan_string per chunk, strlen-based): a repair is a redesign of the reader/scanner interface, not a patch"),
     ("C14.race_stmt_level", "every Statement::execute writes its node's mutable _level: removing the write changes how loops find their level (structural)"),
     ("C14.error_record_process_wide", "bloc_errno/bloc_strerror are one process-wide record by API design; per-context records would change the C API"),
